@@ -446,6 +446,28 @@ func runC03(w *vx.W) {
 			}
 		}
 	}
+	// messages with (nearly) every scalar field set: routing must not depend on message content
+	for _, t := range fileTypes {
+		for seed := 0; seed < 3; seed++ {
+			k++
+			if !w.Mine(k) {
+				continue
+			}
+			s, exp := richStream(byte(t.Type), seed, 2)
+			res := safeDecode(bytes.NewReader(s))
+			w.Eval(1)
+			w.Trace(1)
+			w.Fam("rich-messages", 1)
+			rep := c03Replay{byte(t.Type), []string{fmt.Sprintf("rich stream seed %d: every member twice in order, then once in reverse order", seed)}, vx.Hex(s)}
+			if res.Err != nil || res.Panic != "" {
+				w.Violation("routing-rich/"+t.Name, fmt.Sprintf("%s file: decode fails: %v %s", t.Name, res.Err, res.Panic), rep)
+				continue
+			}
+			if d := richCompare(res.File, byte(t.Type), exp); d != "" {
+				w.Violation("routing-rich/"+t.Name, fmt.Sprintf("%s file with fully populated messages: %s", t.Name, d), rep)
+			}
+		}
+	}
 	// all 256 file-type bytes: Decode and NewFile
 	for b := 0; b < 256; b++ {
 		if !w.Mine(int64(b)) {
